@@ -89,7 +89,7 @@ def main(argv):
     if cmd not in ('C16', 'C17', 'C18') or tier not in ('quick', 'thorough'):
         usage()
     try:
-        os.remove(os.path.join(e4lib.ROOT, 'evidence', '%s.json' % cmd))
+        os.remove(os.path.join(e4lib.OUT, 'evidence', '%s.json' % cmd))
     except OSError:
         pass
     e4lib.build()
